@@ -8,7 +8,6 @@ import io
 import json
 import os
 import shutil
-import types
 
 from . import ser_common as sc
 
@@ -27,157 +26,17 @@ ASSUMPTIONS = ["no process kill, power loss, concurrent writer or TOCTOU race is
 EXPLANATION = "see MANIFEST level text"
 
 
-class Injected(Exception):
-    pass
+from .c08_hooks import (EXC_CLASSES, Injected, InjectedExit, InjectedInterrupt, InjectedOSError, Recorder,  # noqa: F401
+                        collapse, instrumented, to_steps, write_classes)
 
 
-class InjectedInterrupt(KeyboardInterrupt):
-    """'fails part-way for any reason' includes interruptions that are not `Exception`s"""
-
-
-class Recorder:
-    """counts primitive calls made by save(); raises Injected at the k-th one"""
-
-    def __init__(self, target, fault=None, exc_cls=None):
-        self.target = os.path.abspath(target)
-        self.fault = fault
-        self.exc_cls = exc_cls or Injected
-        self.trace = []
-        self.active = False
-        self.zip_mode = False
-
-    def hit(self, kind):
-        if not self.active:
-            return
-        idx = len(self.trace)
-        self.trace.append(kind)
-        if self.fault is not None and idx == self.fault:
-            raise self.exc_cls(f"injected at #{idx} ({kind})")
-
-
-@contextlib.contextmanager
-def instrumented(rec):
-    import zarr
-    import zarr.core.attributes
-    import zarr.core.group
-    from quantem.core.io import serialize
-
-    real_os, real_shutil, real_zarr, real_zip = serialize.os, serialize.shutil, serialize.zarr, serialize.ZipFile
-
-    def is_target(p):
-        return os.path.abspath(str(p)) == rec.target
-
-    osp = types.SimpleNamespace(**{k: getattr(real_os, k) for k in dir(real_os) if not k.startswith("__")})
-
-    def makedirs(p, *a, **k):
-        rec.hit("stage:mkdir")
-        return real_os.makedirs(p, *a, **k)
-
-    def remove(p, *a, **k):
-        if is_target(p):
-            rec.hit("install:remove")
-        return real_os.remove(p, *a, **k)
-
-    def replace(a, b, *x, **k):
-        rec.hit("install:replace")
-        return real_os.replace(a, b, *x, **k)
-
-    osp.makedirs, osp.remove, osp.replace = makedirs, remove, replace
-    shp = types.SimpleNamespace(**{k: getattr(real_shutil, k) for k in dir(real_shutil) if not k.startswith("__")})
-
-    def rmtree(p, *a, **k):
-        if is_target(p):
-            rec.hit("install:remove")
-        return real_shutil.rmtree(p, *a, **k)
-
-    shp.rmtree = rmtree
-
-    class ZP:
-        def __getattr__(self, name):
-            return getattr(real_zarr, name)
-
-        def group(self, *a, **k):
-            rec.hit("w:group-root")
-            return real_zarr.group(*a, **k)
-
-    class ZF(real_zip):
-        def __init__(self, *a, **k):
-            self._qv = rec.active and (k.get("mode") == "w" or (len(a) > 1 and a[1] == "w"))
-            if self._qv:
-                rec.hit("zip:open")
-            super().__init__(*a, **k)
-
-        def write(self, *a, **k):
-            if self._qv:
-                rec.hit("zip:write")
-            return super().write(*a, **k)
-
-        def close(self):
-            if self._qv and self.fp is not None and not getattr(self, "_qv_closed", False):
-                self._qv_closed = True
-                try:
-                    rec.hit("zip:close")
-                except (Injected, InjectedInterrupt):
-                    super().close()   # the OS handle is released; the archive stays in the staging path
-                    raise
-            return super().close()
-
-    A = zarr.core.attributes.Attributes
-    G = zarr.core.group.Group
-    real_setitem, real_require = A.__setitem__, G.require_group
-    real_wn, real_wb = serialize.AutoSerialize._write_ndarray, serialize.AutoSerialize._write_bytes
-
-    def setitem(self, k, v):
-        rec.hit("w:attr")
-        return real_setitem(self, k, v)
-
-    def require_group(self, *a, **k):
-        rec.hit("w:group")
-        return real_require(self, *a, **k)
-
-    def wn(*a, **k):
-        rec.hit("w:array")
-        return real_wn(*a, **k)
-
-    def wb(*a, **k):
-        rec.hit("w:bytes")
-        return real_wb(*a, **k)
-
-    serialize.os, serialize.shutil, serialize.zarr, serialize.ZipFile = osp, shp, ZP(), ZF
-    A.__setitem__, G.require_group = setitem, require_group
-    serialize.AutoSerialize._write_ndarray = staticmethod(wn)
-    serialize.AutoSerialize._write_bytes = staticmethod(wb)
-    try:
-        yield
-    finally:
-        serialize.os, serialize.shutil, serialize.zarr, serialize.ZipFile = real_os, real_shutil, real_zarr, real_zip
-        A.__setitem__, G.require_group = real_setitem, real_require
-        serialize.AutoSerialize._write_ndarray = staticmethod(real_wn)
-        serialize.AutoSerialize._write_bytes = staticmethod(real_wb)
-
-
-def to_steps(trace, zip_store):
-    """map recorded primitives to model steps"""
-    out = []
-    for t in trace:
-        if t == "stage:mkdir" or t == "zip:open":
-            out.append("stageOpen")
-        elif t.startswith("w:"):
-            out.append("tmpWrite" if zip_store else "stageWrite")
-        elif t == "zip:write":
-            out.append("stageWrite")
-        elif t == "zip:close":
-            out.append("stageFinish")
-        elif t == "install:remove":
-            out.append("removeOld")
-        elif t == "install:replace":
-            out.append("replace")
-    if not zip_store:
-        # the last staging write (second attribute of write_skip_metadata) completes the object
-        idx = max((i for i, s in enumerate(out) if s == "stageWrite"), default=None)
-        if idx is not None and "replace" in out:
-            out[idx] = "stageFinish"
-    return out
+def exc_for(fault, idx):
+    """the exception class injected at fault position `fault` of configuration `idx`: 'fails part-way for
+    any reason' — an ordinary exception, an OSError (disk full), and, every third position, an
+    interruption that is NOT an `Exception` (KeyboardInterrupt / SystemExit)"""
+    if fault is None:
+        return Injected
+    return (InjectedInterrupt, Injected, InjectedOSError, InjectedExit, Injected, InjectedOSError)[(fault + idx) % 6]
 
 
 def _set_order_sensitive(v):
@@ -296,12 +155,11 @@ def run_config(ctx, drv, recipe, old_recipe, store, mode, pre, idx, call="exact"
             open(stem, "w").write("same stem, other path\n")
         pre_hash = tree_hash(target)
         sib_hash = (tree_hash(os.path.join(base, "sib.txt")), tree_hash(os.path.join(base, "sibdir")), tree_hash(stem) if stem_sibling else None)
-        # every third fault position is an interruption (BaseException), the others an Exception
-        exc_cls = InjectedInterrupt if (fault is not None and (fault + idx) % 3 == 0) else Injected
+        exc_cls = exc_for(fault, idx)
         rec = Recorder(target, fault, exc_cls)
         raised = None
         with instrumented(rec):
-            rec.active = True
+            rec.start()
             try:
                 with contextlib.redirect_stdout(io.StringIO()):
                     if call == "noext" and zip_store:
@@ -310,12 +168,12 @@ def run_config(ctx, drv, recipe, old_recipe, store, mode, pre, idx, call="exact"
                         obj.save(target, mode=mode)
                     else:
                         obj.save(target, mode=mode, store=store)
-            except (Injected, InjectedInterrupt):
+            except EXC_CLASSES:
                 raised = "Injected"
             except Exception as e:  # noqa
                 raised = type(e).__name__
             finally:
-                rec.active = False
+                rec.stop()
         listing = sorted(os.listdir(base))
         post_hash = tree_hash(target)   # before load(): zarr.group() creates metadata in a foreign directory it is pointed at
         state, detail = observe_target(target, spec_new, spec_old, pre_hash, post_hash)
@@ -358,17 +216,21 @@ def run_config(ctx, drv, recipe, old_recipe, store, mode, pre, idx, call="exact"
             ctx.disagree("fault-outcome", case, model_view, impl_view, note=f"k={k} {case['step']}")
         # ---- order of the primitive store writes vs the serializer model's write trace
         if k is None and not (mode == "w" and pre != "absent"):
-            real_w = [{"w:group-root": "group", "w:group": "group", "w:attr": "attr", "w:array": "array", "w:bytes": "bytes"}[t]
-                      for t in trace if t.startswith("w:")]
-            mt = drv.ask({"op": "trace", "v": spec_new})
+            real_w, unlabelled = write_classes(trace)
+            model_w = (drv.ask({"op": "trace", "v": spec_new}).get("ok") or [])
+            if unlabelled:
+                # the private helpers that tell an array from a byte blob are gone (renamed / inlined):
+                # the order of the store writes is still compared, with the two classes collapsed
+                ctx.dist["write_trace_array_bytes_collapsed"] += 1
+                real_w, model_w = collapse(real_w), collapse(model_w)
             if _set_order_sensitive(spec_new):
                 # a set is written in Python's (arbitrary) iteration order: when its members have
                 # different write shapes the order of the trace is not defined — compare as multisets
                 ctx.dist["write_trace_unordered_set"] += 1
-                if sorted(mt.get("ok") or []) != sorted(real_w):
-                    ctx.disagree("write-trace", case, sorted(mt.get("ok") or []), sorted(real_w), note="multiset of store writes of save()")
-            elif mt.get("ok") != real_w:
-                ctx.disagree("write-trace", case, mt.get("ok"), real_w, note="sequence of store writes of save()")
+                if sorted(model_w) != sorted(real_w):
+                    ctx.disagree("write-trace", case, sorted(model_w), sorted(real_w), note="multiset of store writes of save()")
+            elif model_w != real_w:
+                ctx.disagree("write-trace", case, model_w, real_w, note="sequence of store writes of save()")
             ctx.dist["write_trace_compared"] += 1
         # ---- model's own step list has the same shape as the recorded trace (fault-free run only)
         if k is None and not (mode == "w" and pre != "absent"):
@@ -527,12 +389,12 @@ def history_stream(ctx, drv, n_hist):
                     (shutil.copytree if os.path.isdir(target) else shutil.copy2)(target, dtarget)
                 rec = Recorder(dtarget, None, Injected)
                 with instrumented(rec):
-                    rec.active = True
+                    rec.start()
                     try:
                         with contextlib.redirect_stdout(io.StringIO()):
                             obj.save(dtarget, mode=mode, store=store)
                     finally:
-                        rec.active = False
+                        rec.stop()
                 steps = to_steps(rec.trace, zip_store)
                 n = len(rec.trace)
                 nt, nw = steps.count("tmpWrite"), steps.count("stageWrite")
@@ -544,20 +406,20 @@ def history_stream(ctx, drv, n_hist):
                     k = n - 1 - rng.below(min(3, n))      # around the install steps
                 else:
                     k = rng.below(n)
-            exc_cls = InjectedInterrupt if (k is not None and (k + h) % 3 == 0) else Injected
+            exc_cls = exc_for(k, h)
             rec = Recorder(target, k, exc_cls)
             raised = None
             with instrumented(rec):
-                rec.active = True
+                rec.start()
                 try:
                     with contextlib.redirect_stdout(io.StringIO()):
                         obj.save(target, mode=mode, store=store)
-                except (Injected, InjectedInterrupt):
+                except EXC_CLASSES:
                     raised = "Injected"
                 except Exception as e:  # noqa
                     raised = type(e).__name__
                 finally:
-                    rec.active = False
+                    rec.stop()
             if raised is None:
                 last_ok = cid
             case["calls"].append({"id": cid, "recipe": recipe, "mode": mode, "fault": k})
